@@ -101,7 +101,7 @@ def config_text(entries, style: dict | None = None) -> str:
     for k, v in entries:
         sep = style.get("sep", " = ")
         lines.append(f'{k}{sep}"{v}"' if style.get("quote", True) else f"{k}{sep}{v}")
-    return nl.join(lines) + nl
+    return nl.join(lines) + ("" if style.get("no_final_newline") and lines else nl)
 
 
 def build(spec: dict, tamper=None):
